@@ -370,6 +370,16 @@ func (c *gen) bait() (*Expr, bool) {
 	if len(c.classLeaves) > 0 && c.chance(35, "baitleaf") {
 		// a leaf class rule next to single-rune literals / related classes in a choice: the
 		// optimizer inlines a copy of the class and merges the neighbours into it
+		if c.chance(40, "baitleafpair") {
+			// leaf / class-with-ranges: the copy of the leaf class is the one the neighbour's
+			// members are appended to
+			nb := c.relatedClass()
+			if c.chance(60, "baitonerange") {
+				// exactly one range fits into the spare capacity of a three-range slice
+				nb = &Expr{K: KClass, Ranges: append([]rune{}, nb.Ranges[:2]...)}
+			}
+			return &Expr{K: KChoice, Sub: []*Expr{{K: KRef, Name: Pick(c.t, c.classLeaves, "baitleafname")}, nb}}, false
+		}
 		n := c.intn(2, 3, "baitn")
 		e := &Expr{K: KChoice}
 		refAt := c.intn(0, n-1, "baitrefat")
@@ -467,7 +477,10 @@ func (c *gen) relatedClass() *Expr {
 	e := &Expr{K: KClass}
 	// (three ranges / three Unicode classes: pigeon builds these slices by appending, which
 	// leaves spare capacity exactly then - a shallow copy shares it)
-	n := c.intn(1, 3, "relranges")
+	n := c.intn(1, 4, "relranges")
+	if n == 4 {
+		n = 3
+	}
 	for i := 0; i < n; i++ {
 		p := Pick(c.t, pairs, "relrange")
 		e.Ranges = append(e.Ranges, p[0], p[1])
@@ -820,7 +833,13 @@ func GrammarGen(cfg GenConfig) *rapid.Generator[*Grammar] {
 			var n bool
 			if i >= len(c.names)-nLeaves {
 				// leaf class rules (3 members so that the slice has spare capacity when copied)
-				if c.chance(50, "leafrelated") {
+				if i == len(c.names)-1 {
+					// the last leaf always has three ranges (six runes in a slice of capacity eight)
+					e = &Expr{K: KClass, Ranges: []rune{'0', '9', 'a', 'f', 'A', 'F'}}
+					if c.chance(50, "leafranges2") {
+						e = &Expr{K: KClass, Ranges: []rune{'a', 'c', '0', '1', 'A', 'B'}}
+					}
+				} else if c.chance(50, "leafrelated") {
 					e = c.relatedClass()
 				} else {
 					e = &Expr{K: KClass, Chars: []rune{c.rune_(), c.rune_(), c.rune_()}}
